@@ -14,7 +14,7 @@ import traceback
 
 from . import speclang
 
-GHOST_NAMES = {"org", "prov", "upd", "Perm", "Follow", "fresh", "same_object_ghost", "ufn", "apply", "SUM", "unit"}
+GHOST_NAMES = {"org", "prov", "upd", "Perm", "Follow", "fresh", "same_object_ghost", "ufn", "apply", "SUM", "unit", "chunk_off", "nyielded", "consumed", "nitems", "item", "mapped", "defined_len"}
 
 
 class Skip(Exception):
@@ -219,7 +219,7 @@ def run_case(c, fn, case, glob):
                     pass
         ns2 = dict(ns)
         ns2["result"] = result
-        for name, clause in c.ensures:
+        for name, clause in list(c.ensures) + list(c.rt_ensures):
             try:
                 v = eval_clause(clause, ns2, pre_ns, glob)
                 if hasattr(v, "all") and not isinstance(v, bool):
